@@ -5,12 +5,12 @@ CONSTANTS
   NoShadow = FALSE
   ShallowSub = FALSE
   IgnoreNs = FALSE
-  ModSharedPath = FALSE
-  MaxMod = 0
+  ModSharedPath = TRUE
+  MaxMod = 1
   NodeU <- NodeU4
   MaxAssoc = 2
   CreateNs = {1, 2}
-  ClsU = {"AB", "ABS", "ABSS", "AT", "AL"}
+  ClsU = {"AB", "AT", "AL"}
   AcU <- AcSmall
   RcU <- RcSmall
   RlU <- RlSmall
